@@ -9,13 +9,13 @@ from mc import g_ppc as gx
 PROPERTY = "C21"
 LEVEL = "exploration"
 META = {
-    "text": "Every network reachable from the bases R3 (radial, fused buses, line switch), M4 (meshed 110 kV ring) and T3 (110/20 kV transformer with tap changer) by <=2 deviations from a menu of loads, sgens, gens (also at the slack bus, negative p, out of service), shunts (steps, other rated voltage), second slacks, open / impedance switches, out-of-service lines / buses / transformers, parallel and extra lines, line conductance, tap position / side / neutral / phase shifters, parallel transformers and sn_mva is solved with runpp(trafo_model='pi'), converted with to_ppc(init='flat' and init='results') -> from_ppc and with to_mpc -> .mat file -> from_mpc, solved again, and compared: complex voltage of every supplied bus (through the bus lookup of the conversion), net injection at the slack buses, total losses (bus-sum and branch-table sum), all within 1e-6.",
-    "note": "Trusted: the bus mapping net._pd2ppc_lookups['bus'] written by to_ppc, and the bookkeeping in mc/g_ppc.py.  Inside the documented scope only: pi model, symmetric branches, constant-power loads, no dcline / ward / trafo3w.  Only cases whose original power flow converges are judged.  MATPOWER .m text files (matpowercaseframes) are not exercised, only .mat.",
+    "text": "Every network reachable from the bases R3 (radial, fused buses, line switch), M4 (meshed 110 kV ring), T3 (110/20 kV transformer with tap changer), W3 (three-winding transformer: tap side / position / star point, phase shifts, negative star-leg reactances) and R3c / T3c (the same nets with cost data, i.e. converted in opf mode, with controllable gens / sgens / loads piled onto generator and slack buses whose set point differs from 1.0) by <=2 deviations from a menu of loads, sgens, gens (also at the slack bus, negative p, out of service), shunts (steps, other rated voltage), second slacks, open / impedance switches, out-of-service lines / buses / transformers, parallel and extra lines, line conductance, tap position / side / neutral / phase shifters (also between equal voltage levels at ratio exactly 1), parallel transformers and sn_mva is solved with runpp(trafo_model='pi'), converted with to_ppc(init='flat' and init='results') -> from_ppc and with to_mpc -> .mat file -> from_mpc, solved again, and compared: complex voltage of every supplied bus (through the bus lookup of the conversion), net injection at the slack buses, total losses (bus-sum and branch-table sum), all within 1e-6.",
+    "note": "Trusted: the bus mapping net._pd2ppc_lookups['bus'] written by to_ppc, and the bookkeeping in mc/g_ppc.py.  Inside the documented scope only: pi model, symmetric branches, constant-power loads, no dcline / ward.  Only cases whose original power flow converges are judged.  MATPOWER .m text files (matpowercaseframes) are not exercised, only .mat.",
     "technique": "bounded exhaustive input enumeration (deviation-bounded, k<=2) with a differential power-flow oracle across the real converters",
     "design_ref": "DESIGN.md §3 E1, §4 C21",
 }
 
-BASES = ["R3", "M4", "T3"]
+BASES = ["R3", "M4", "T3", "W3", "R3c", "T3c"]
 
 
 def _explain(orig, src, conv, route, look, nb, exc=None):
@@ -56,7 +56,7 @@ def _explain(orig, src, conv, route, look, nb, exc=None):
 
 def run_case(case):
     out = {"violations": [], "n": 0, "counts": {}}
-    net0 = na.build(case)
+    net0 = gx.build(case)
     orig = copy.deepcopy(net0)
     oc = gx.run_pf(orig)
     out["counts"]["orig_" + oc] = 1
@@ -121,7 +121,7 @@ def gen_cases(tier):
                 cases.append({"base": b, "devs": [list(d) for d in devs], "routes": gx.ROUTES})
         if tier == "thorough":
             # k = 3 over the structural / tap part of the menu (bus elements fixed to one load + one gen)
-            ms = [d for d in m if d[0] in ("set", "switch", "line", "trafo", "swapline", "bus", "sn", "impedance")]
+            ms = [d for d in m if d[0] in ("set", "switch", "line", "trafo", "swapline", "bus", "sn", "impedance")] if b not in gx.COST_BASES else []
             for devs in na.subsets(ms, 3):
                 if len(devs) == 3:
                     cases.append({"base": b, "devs": [list(d) for d in devs], "routes": ["ppc_flat", "mpc_flat"]})
